@@ -359,6 +359,25 @@ func (ex *Exec) readerRead(st *State, r *RdrV, bufV Val, pos string) []callRes {
 	if buf == nil || buf.Unk {
 		return []callRes{{st: st, ret: &TupleV{Vs: []Val{st.freshInt("n", 64, true), &IfaceV{Unk: true}}}}}
 	}
+	srcErr := func() Val { return &IfaceV{Unk: true, NonNil: true, Sentinel: "sim.source-failure"} }
+	if r.Failed {
+		return []callRes{{st: st, ret: &TupleV{Vs: []Val{mkConst(0, 64, true), srcErr()}}}}
+	}
+	if ex.ReaderMayFail {
+		// failure injection: this Read fails (nothing delivered), and so does every later one
+		st2 := st.Clone()
+		for id, v := range st2.heap {
+			if rv, ok := v.(*RdrV); ok && rv == r {
+				st2.heap[id] = &RdrV{Src: r.Src, Pos: r.Pos, Failed: true}
+			}
+		}
+		st2.Events = append(st2.Events, Event{Kind: "sim:read-failed", Pos: pos})
+		out := []callRes{{st: st2, ret: &TupleV{Vs: []Val{mkConst(0, 64, true), srcErr()}}}}
+		ex.ReaderMayFail = false
+		out = append(out, ex.readerRead(st, r, bufV, pos)...)
+		ex.ReaderMayFail = true
+		return out
+	}
 	remaining := st.Arith(token.SUB, r.Src.Len, r.Pos, pos)
 	// EOF case: remaining <= 0
 	zero := mkConst(0, 64, true)
@@ -419,7 +438,7 @@ func (ex *Exec) readerCopy(st *State, r *RdrV, buf *SliceV, n *IntV, pos string)
 	// advance reader (the reader object lives in the heap; find and update)
 	for id, v := range st.heap {
 		if rv, ok := v.(*RdrV); ok && rv == r {
-			st.heap[id] = &RdrV{Src: r.Src, Pos: st.Arith(token.ADD, r.Pos, n, pos)}
+			st.heap[id] = &RdrV{Src: r.Src, Pos: st.Arith(token.ADD, r.Pos, n, pos), Failed: r.Failed}
 		}
 	}
 	return callRes{st: st, ret: &TupleV{Vs: []Val{n, nilErr()}}}
